@@ -112,7 +112,7 @@ func respell(rng *rand.Rand, ts []gtok, st *spellTable) string {
 			sb.WriteString(t.Text)
 		case "string_lit":
 			content := t.Text[1 : len(t.Text)-1]
-			if !strings.ContainsAny(content, "\"`\\\n") && rng.Intn(2) == 0 {
+			if !strings.ContainsAny(content, "\"`\n") && plainEscapes(content) && (rng.Intn(2) == 0 || strings.Contains(content, "\\")) {
 				if t.Text[0] == '"' {
 					sb.WriteString("`" + content + "`")
 				} else {
@@ -126,13 +126,33 @@ func respell(rng *rand.Rand, ts []gtok, st *spellTable) string {
 		}
 		prev = &ts[i]
 	}
-	sb.WriteString(st.Layouts[rng.Intn(len(st.Layouts))])
+	if rng.Intn(4) == 0 {
+		// a line comment ended by the end of the file
+		sb.WriteString([]string{" // end", "\n//", "\n// the end */ /*"}[rng.Intn(3)])
+	} else {
+		sb.WriteString(st.Layouts[rng.Intn(len(st.Layouts))])
+	}
 	return sb.String()
+}
+
+// plainEscapes: every backslash of the content starts one of the escapes \\ \n \t, which both
+// quoting styles of gocc's string literals keep as they are written (the content of a literal
+// is its text between the quotes; "..." only needs the escape to know where it ends).
+func plainEscapes(content string) bool {
+	for i := 0; i < len(content); i++ {
+		if content[i] == '\\' {
+			if i+1 >= len(content) || !strings.ContainsRune("\\nt", rune(content[i+1])) {
+				return false
+			}
+			i++
+		}
+	}
+	return true
 }
 
 func checkC13(c *Ctx) {
 	c.Level = "model_checking"
-	c.Set("rule", "GoccLex.tla defines every ASCII spelling of a code point (character, \\x, octal, \\u, \\U in both cases, named escape) and the layouts between tokens; TLC checks that each spelling denotes the code point under Go's literal rule and emits the spelling table; seeded respelling plans (per token a spelling, per gap a layout or none where tokens cannot fuse, either quoting style for plain string literals) are applied to generated grammars and the real gocc must produce byte-identical packages and the same exit status for the canonical and the respelled file. distinct_nontrivial counts distinct respelled files")
+	c.Set("rule", "GoccLex.tla defines every ASCII spelling of a code point (character, \\x, octal, \\u, \\U in both cases, named escape) and the layouts between tokens; TLC checks that each spelling denotes the code point under Go's literal rule and emits the spelling table; seeded respelling plans (per token a spelling, per gap a layout or none where tokens cannot fuse, either quoting style for string literals without quotes whose backslashes are plain escapes, a line comment ended by the end of the file) are applied to generated grammars and the real gocc must produce byte-identical packages and the same exit status for the canonical and the respelled file. distinct_nontrivial counts distinct respelled files")
 	c.Assume("respelling is applied to grammar texts rendered and tokenised by the harness itself; the character itself as the spelling of a non-ASCII code point is added by the harness (the TLA+ model spells literals in ASCII)")
 	c.scannerReplay()
 	rng := rand.New(rand.NewSource(c.Seed))
@@ -154,6 +174,23 @@ func checkC13(c *Ctx) {
 			for pi := range g.Prods {
 				if rng.Intn(3) == 0 {
 					g.Prods[pi].Action = "X[0], nil"
+				}
+			}
+			// some literals with backslashes in their content
+			bs := []string{"\\\\", "a\\nb", "\\t", "x\\\\y"}
+			for k := range g.Terms {
+				if g.IsLit[k] {
+					// the first literal of every grammar (and a quarter of the others)
+					cand, dup := bs[(i/2+k)%len(bs)], false
+					for _, t := range g.Terms {
+						dup = dup || t == cand
+					}
+					if !dup {
+						g.Terms[k] = cand
+					}
+					if rng.Intn(4) != 0 {
+						break
+					}
 				}
 			}
 			text = g.render()
